@@ -57,7 +57,9 @@ Pool == <<
     <<"m", "includes", <<<<1, 1>>>>, "col">>, <<"m", "includes", <<<<1, 2>>>>, "col">>, <<"m", "excludes", <<<<2, 2>>>>, "col">>,
     <<"m", "==", <<<<1, 1>>>>, "col">>, <<"m", "==", <<>>, "col">>, <<"m", "!=", <<<<2, 2>>>>, "col">>,
     <<"_uuid", "==", "u1", "atom">>, <<"_uuid", "!=", "u1", "atom">>, <<"_uuid", "==", "u9", "atom">>,
-    <<"_uuid", "includes", "u3", "atom">>, <<"_uuid", "excludes", "u3", "atom">>
+    <<"_uuid", "includes", "u3", "atom">>, <<"_uuid", "excludes", "u3", "atom">>,
+    \* a second key of the map: with the condition on key 1, the value of an index over both keys
+    <<"m", "includes", <<<<2, 1>>>>, "col">>
 >>
 
 \* the same rows with distinct values in column a: schema (unique) indexes on a apply
